@@ -102,17 +102,17 @@ impl TryFrom<&str> for FeelYearsAndMonthsDuration {
     if let Some(captures) = RE_YEARS_AND_MONTHS.captures(value) {
       let mut is_valid = false;
       let mut total_months = 0_i64;
+      // a component that does not fit (or a total that overflows) makes the literal invalid
+      let invalid = || err_invalid_years_and_months_duration_literal(value);
       if let Some(years_match) = captures.name("years") {
-        if let Ok(years) = years_match.as_str().parse::<u64>() {
-          total_months += (years as i64) * MONTHS_IN_YEAR;
-          is_valid = true;
-        }
+        let years = years_match.as_str().parse::<i64>().map_err(|_| invalid())?;
+        total_months = years.checked_mul(MONTHS_IN_YEAR).ok_or_else(invalid)?;
+        is_valid = true;
       }
       if let Some(months_match) = captures.name("months") {
-        if let Ok(months) = months_match.as_str().parse::<u64>() {
-          total_months += months as i64;
-          is_valid = true;
-        }
+        let months = months_match.as_str().parse::<i64>().map_err(|_| invalid())?;
+        total_months = total_months.checked_add(months).ok_or_else(invalid)?;
+        is_valid = true;
       }
       if captures.name("sign").is_some() {
         total_months = -total_months;
